@@ -78,9 +78,17 @@ func evidenceDir() string {
 	return filepath.Join(root(), "evidence")
 }
 
-func build(outDir string) string {
+func build(outDir string) string { return buildBin(outDir, "") }
+
+// buildBin compiles the harness test binary against /repo; with a fuzz target
+// name it builds the coverage-instrumented variant native fuzzing needs.
+func buildBin(outDir, fuzz string) string {
 	bin := filepath.Join(outDir, "checks.test")
 	args := []string{"test", "-c", "-tags", "verif", "-o", bin}
+	if fuzz != "" {
+		bin = filepath.Join(outDir, "fuzz-"+fuzz+".test")
+		args = []string{"test", "-c", "-tags", "verif", "-fuzz", "^" + fuzz + "$", "-o", bin}
+	}
 	if alt := os.Getenv("VERIF_REPO"); alt != "" {
 		// development aid: judge another copy of the repository (a scratch
 		// worktree holding a seeded change) without touching /repo
@@ -234,6 +242,12 @@ func main() {
 			runs = append(runs, shardRun{job: j, shard: s, shards: n, seed: seed, checks: j.checks[ti], count: j.count[ti]})
 		}
 	}
+	fuzzBins := map[string]string{}
+	for _, r := range runs {
+		if r.job.fuzz && fuzzBins[r.job.test] == "" {
+			fuzzBins[r.job.test] = buildBin(outDir, r.job.test)
+		}
+	}
 	maxPar := 16
 	if v, err := strconv.Atoi(os.Getenv("VERIF_PAR")); err == nil && v > 0 {
 		maxPar = v
@@ -253,7 +267,11 @@ func main() {
 			if secs == 0 {
 				secs = 900
 			}
-			results[i] = runShard(bin, outDir, prop, tier, verifSeed, r, time.Duration(secs)*time.Second)
+			b := bin
+			if r.job.fuzz {
+				b = fuzzBins[r.job.test]
+			}
+			results[i] = runShard(b, outDir, prop, tier, verifSeed, r, time.Duration(secs)*time.Second)
 			for k := 0; k < w; k++ {
 				<-sem
 			}
